@@ -4,3 +4,11 @@ import GapicModel.Props.C19
 #print axioms GapicModel.Props.C19.group_capsP_lt
 #print axioms GapicModel.Props.C19.groupdict_capsP
 #print axioms GapicModel.Props.C19.expected_values
+#print axioms GapicModel.Props.C19.wildcard_accepts_all
+#print axioms GapicModel.Props.C19.parse_build_partial
+#print axioms GapicModel.Props.C19.rebuild_partial
+#print axioms GapicModel.Props.C19.nonmatch_empty
+#print axioms GapicModel.Props.C19.args_are_variables
+#print axioms GapicModel.Props.C19.dot_separator_roundtrip
+#print axioms GapicModel.Props.C19.newline_counterexample
+#print axioms GapicModel.Props.C19.empty_segment_counterexample
